@@ -59,3 +59,10 @@ Definition limits_hold (p : pool) : Prop :=
 (* inputs: transactions are identified by their hash (collision freedom of the tx hash is a premise) *)
 Definition op_txs (x : op) : list tx :=
   match x with OpAddLocal t | OpAddRemote t => [t] | OpSetGasPrice _ => [] | OpReset _ _ ri => ri end.
+
+(* all = pending ∪ queue, in the form used as an invariant: every entry of pool.all is keyed by its own hash,
+   every pending/queued transaction is in pool.all, and nothing else is (no orphans) *)
+Definition all_wf (p : pool) : Prop :=
+  (forall h t, assoc h (all p) = Some t -> thash t = h) /\
+  (forall t, listed p t -> assoc (thash t) (all p) = Some t).
+Definition all_exact (p : pool) : Prop := all_wf p /\ forall h t, assoc h (all p) = Some t -> listed p t.
